@@ -56,6 +56,36 @@ CHECKS["C20"] = dict(
     design_ref="§24",
 )
 
+_GATE_NOTE = ("Trusted: Coq kernel, hand model Model/Gate.v of the counters and exit/write decisions (tied by scenario-grid correspondence: the model is "
+              "evaluated on the violation summaries captured at LintedDir.add in each real CLI/API run and compared with the observed exit code / "
+              "write), Python oracle of the property text. Rule bodies, templater and parser are exercised, not modelled. No axioms.")
+CHECKS["C22"] = dict(
+    category="proof",
+    text=("Coq theorems C22_lint_exit_spec, C22_lint_nofail, C22_paths_fix_exit_spec, C22_warnings_never_fail prove over all files/violation "
+          "lists that lint exits 1 iff an unsuppressed non-warning violation exists and fix/format by path exit 1 iff such a lint violation "
+          "remains unfixable or an unsuppressed TMP/PRS error blocks fixing; C22_stdin_exit_partial/_refuted state exactly when stdin agrees "
+          "(open finding F6). Correspondence and a property oracle run on a scenario grid (TMP/PRS fatal/non-fatal x lint fixable/unfixable x "
+          "noqa/ignore/warnings x fix_even_unparsable) through lint/fix/format by path, stdin, --nofail, plus usage errors (exit 2)."),
+    note=_GATE_NOTE, technique="Coq proof over decision-layer model + scenario-grid correspondence with the real CLI", design_ref="§26",
+)
+CHECKS["C18"] = dict(
+    category="proof",
+    text=("Coq theorems C18_paths_gate, C18_stdin_gate, C18_api_gate prove that each entry point writes/returns fixed text only if "
+          "fix_even_unparsable is set or the file has no templating/parsing violation at all (suppressed ones included). The scenario grid "
+          "runs fix by path, format, fix by stdin and api fix() on files with fatal/non-fatal TMP/PRS errors suppressed by noqa/ignore/warnings "
+          "and checks the text is unchanged; loop-limit runs check that a file is either stable or untouched."),
+    note=_GATE_NOTE + " The fix loop's rollback is checked on real runs with runaway_limit in {1,2}; its model (FixLoop) is covered under C17/C13.",
+    technique="Coq proof over decision-layer model + scenario-grid correspondence with the real CLI/API", design_ref="§22",
+)
+CHECKS["C19"] = dict(
+    category="proof",
+    text=("Coq theorems C19_write_decision_stdin_eq_paths, C19_api_gate_eq, C19_exit_agreement_partial/_refuted prove that the three entry "
+          "points take the same write decision and the same exit status except in the F6 situation (open finding). Three-way comparison of "
+          "violations, fixed text and exit status over the scenario grid, plus inline `-- sqlfluff:` config scenarios (rules, exclude_rules, "
+          "rule options, dialect, max_line_length)."),
+    note=_GATE_NOTE, technique="Coq proof over decision-layer model + three-way differential runs of the real entry points", design_ref="§23",
+)
+
 NOT_YET = "no check built yet in this round (planned: see DESIGN.md section for this property)"
 
 
